@@ -21,11 +21,21 @@ def run_program(job):
         res["compile_error"] = f"{type(e).__name__}: {e}"
         return res
 
+    comp = job.get("form", "behavior") == "compose"
+    if comp:
+        import verif_c19_helpers as H
+
     def once():
         sim = DummySimulator()
+        if comp:
+            H.LOG.clear()
         s = sim.simulate(scene, maxSteps=job["maxSteps"], maxIterations=1)
         if s is None:
             return "REJ"
+        if comp:      # no agent: the sub-scenarios log (step, value) themselves
+            if any(a for step in s.result.actions for v in step.values() for a in v):
+                return "MULTI"
+            return ",".join(f"{t}:{a}" for t, a in H.LOG) or "-"
         items = []
         for t, step in enumerate(s.result.actions):
             acts = [a for v in step.values() for a in v]
